@@ -21,6 +21,7 @@ from sismic.model import Event
 
 ID = 'C19'
 LEVEL = 'exploration'
+RUN_LIMIT_CPU_S = 600
 BUDGET = {'quick': 25, 'thorough': 300}
 BLOCK = 10
 STREAM_ORDER = ['scen', 'chart', 'cfg']
